@@ -6,7 +6,7 @@
   switched off per location (`DISABLE`) so the overhead is paid only inside the library.
   Fallback (< 3.12): `sys.settrace` with a per-frame local tracer for library frames only.
 * Line counts are deterministic for a given input and library source (no timing, no GC dependence).
-* Budget: when `lines > max_lines` or the wall clock exceeds `max_seconds`, the callback raises
+* Budget: when `lines > max_lines` or the wall clock exceeds `max_seconds + per_line*lines`, the callback raises
   `WorkBudgetExceeded` (a BaseException, so `except Exception` inside the library does not swallow it)
   and keeps raising on every further line until control is back in `measure`.  This keeps a check fast
   even when a mutation makes the library exponential.  C-level work (slicing, hashing, bitarray) is
@@ -44,7 +44,7 @@ _TOOL = 4
 _TIME_EVERY = 2048
 
 
-def _measure_monitoring(fn, max_lines, max_seconds):
+def _measure_monitoring(fn, max_lines, max_seconds, per_line):
     mon = sys.monitoring
     prefix = _lib_prefix()
     m = Meter()
@@ -64,7 +64,7 @@ def _measure_monitoring(fn, max_lines, max_seconds):
         if n > max_lines:
             state[1] = 'lines'
             raise WorkBudgetExceeded('lines')
-        if n % _TIME_EVERY == 0 and time.perf_counter() - t0 > max_seconds:
+        if n % _TIME_EVERY == 0 and time.perf_counter() - t0 > max_seconds + per_line * n:
             state[1] = 'time'
             raise WorkBudgetExceeded('time')
         return None
@@ -94,12 +94,12 @@ def _measure_monitoring(fn, max_lines, max_seconds):
     m.seconds = time.perf_counter() - t0
     if m.aborted is None and state[1] is not None:
         m.aborted = state[1]      # budget exception was swallowed by a bare `except:` in the library
-    if m.aborted is None and m.seconds > max_seconds:
+    if m.aborted is None and m.seconds > max_seconds + per_line * m.lines:
         m.aborted = 'time'
     return m
 
 
-def _measure_settrace(fn, max_lines, max_seconds):
+def _measure_settrace(fn, max_lines, max_seconds, per_line):
     prefix = _lib_prefix()
     m = Meter()
     t0 = time.perf_counter()
@@ -114,7 +114,7 @@ def _measure_settrace(fn, max_lines, max_seconds):
             if n > max_lines:
                 state[1] = 'lines'
                 raise WorkBudgetExceeded('lines')
-            if n % _TIME_EVERY == 0 and time.perf_counter() - t0 > max_seconds:
+            if n % _TIME_EVERY == 0 and time.perf_counter() - t0 > max_seconds + per_line * n:
                 state[1] = 'time'
                 raise WorkBudgetExceeded('time')
         return local
@@ -141,13 +141,16 @@ def _measure_settrace(fn, max_lines, max_seconds):
     m.seconds = time.perf_counter() - t0
     if m.aborted is None and state[1] is not None:
         m.aborted = state[1]
-    if m.aborted is None and m.seconds > max_seconds:
+    if m.aborted is None and m.seconds > max_seconds + per_line * m.lines:
         m.aborted = 'time'
     return m
 
 
-def measure(fn, max_lines=10 ** 7, max_seconds=2.0):
-    """Run `fn()` once, counting library line events.  Never raises for library exceptions."""
+def measure(fn, max_lines=10 ** 7, max_seconds=2.0, per_line=25e-6):
+    """Run `fn()` once, counting library line events.  Never raises for library exceptions.
+    Wall-clock allowance = max_seconds + per_line * (lines executed): the metering overhead itself is a few
+    microseconds per line, so big legitimate inputs (a 10 kB bag of 1024 cells = 220 k lines) are not cut on a loaded machine,
+    while an input of a few hundred bytes (a few thousand lines at most) still has to finish within ~max_seconds."""
     if hasattr(sys, 'monitoring'):
-        return _measure_monitoring(fn, max_lines, max_seconds)
-    return _measure_settrace(fn, max_lines, max_seconds)
+        return _measure_monitoring(fn, max_lines, max_seconds, per_line)
+    return _measure_settrace(fn, max_lines, max_seconds, per_line)
